@@ -419,6 +419,70 @@ pub fn check_queries(t: &BTreeIndex, d: &Domain, m: &Model, b: &Battery, who: &s
             }
         }
     }
+    // range scans that bound only the first key column (what the executor uses for a predicate on
+    // the leading column of a composite index): every pair of first-column values of the domain,
+    // both unbounded sides, four inclusivity combinations
+    let mut firsts: Vec<vibesql_types::SqlValue> = d.keys.iter().filter_map(|k| k.first().cloned()).collect();
+    firsts.sort_by(|a, b| a.cmp(b));
+    firsts.dedup_by(|a, b| (*a).cmp(b) == std::cmp::Ordering::Equal);
+    let mut bounds: Vec<Option<&vibesql_types::SqlValue>> = vec![None];
+    bounds.extend(firsts.iter().map(Some));
+    for lo in &bounds {
+        for hi in &bounds {
+            if let (Some(a), Some(b)) = (lo, hi) {
+                if (*a).cmp(*b) == std::cmp::Ordering::Greater {
+                    continue;
+                }
+            }
+            for (il, ih) in [(true, true), (true, false), (false, true), (false, false)] {
+                let got = q("range_scan_first_column", || t.range_scan_first_column(*lo, *hi, il, ih))?;
+                let mut groups: Vec<&Vec<RowId>> = vec![];
+                for (i, l) in ms.iter().enumerate() {
+                    if l.is_empty() {
+                        continue;
+                    }
+                    let Some(first) = d.keys[i].first() else { continue };
+                    let above = match lo {
+                        None => true,
+                        Some(x) => match first.cmp(x) {
+                            std::cmp::Ordering::Greater => true,
+                            std::cmp::Ordering::Equal => il,
+                            std::cmp::Ordering::Less => false,
+                        },
+                    };
+                    let below = match hi {
+                        None => true,
+                        Some(x) => match first.cmp(x) {
+                            std::cmp::Ordering::Less => true,
+                            std::cmp::Ordering::Equal => ih,
+                            std::cmp::Ordering::Greater => false,
+                        },
+                    };
+                    if above && below {
+                        groups.push(l);
+                    }
+                }
+                let total: usize = groups.iter().map(|g| g.len()).sum();
+                let mut ok = got.len() == total;
+                if ok {
+                    let mut p = 0;
+                    for g in &groups {
+                        if sorted(got[p..p + g.len()].to_vec()) != **g {
+                            ok = false;
+                            break;
+                        }
+                        p += g.len();
+                    }
+                }
+                if !ok {
+                    return Err((
+                        format!("{}range_scan_first_column", who),
+                        format!("{}range_scan_first_column({:?}, {:?}, incl_start={}, incl_end={}) = {:?}, the ordered map has the groups {:?}", who, lo, hi, il, ih, got, groups),
+                    ));
+                }
+            }
+        }
+    }
     Ok(())
 }
 
